@@ -1,0 +1,34 @@
+//go:build verif
+
+// Contracts for the govc verifier (/verif). This file contains comments only; it is compiled
+// only under the build tag "verif" and contributes no declarations.
+package common
+
+// Signature verification (C07). A transaction signature is accepted only if libsecp256k1's strict ECDSA
+// verification accepts it: secpVerify is that C function (secp256k1_ext_ecdsa_verify behind cgo, trusted; it
+// rejects non-normalised (high-S) signatures, which is what keeps the (r, N-s) twin of a valid signature out).
+// PublicKey.Verify must be exactly that check on the key's encoding, the message and the 64 bytes r||s.
+//@ spec abstract fn secpVerify(pub Bytes, msg Bytes, sig Bytes) bool
+//@ spec abstract fn pkEnc(pk PublicKey) Bytes
+//@ spec abstract fn sigRS(s Sign) Bytes
+
+//@ func ext_secpVerifySignature
+//@   option trusted extern=com.tuntun.rangers/node/src/common/secp256k1.VerifySignature
+//@   ensures result == secpVerify(old(bytes(arg0)), old(bytes(arg1)), old(bytes(arg2)))
+//@   modifies nothing
+
+//@ func PublicKey.ToBytes
+//@   option trusted
+//@   ensures fresh(result) && bytes(result) == pkEnc(pk)
+//@   modifies nothing
+
+//@ func Sign.Bytes
+//@   option trusted
+//@   ensures fresh(result) && len(result) == 65 && bytes(result[0:64]) == sigRS(s)
+//@   modifies nothing
+
+//@ func PublicKey.Verify
+//@   property C07
+//@   requires s != nil
+//@   ensures [strict] result == secpVerify(pkEnc(pk), old(bytes(hash)), sigRS(*s))
+//@   modifies nothing
